@@ -88,6 +88,21 @@ std::string run_vs(const Args& a) {
 				}
 				h[i].surrender();
 			}
+			else if (o == "ra") {
+				// the caller takes a heap object out of the holder and hands the very same object back
+				if (!h[i].empty()) {
+					const char* obj = static_cast<const char*>(h[i].extract_raw());
+					const char* hb = reinterpret_cast<const char*>(&h[i]);
+					bool inplace = obj >= hb && obj < hb + sizeof(ValueStore);
+					if (!inplace) {
+						int ty = value_cast<Small0>(&h[i]) ? 0 : value_cast<Small1>(&h[i]) ? 1 : value_cast<Large2>(&h[i]) ? 2 : 3;
+						void* p = h[i].extract_raw();
+						h[i].surrender();
+						if (ty == 0) h[i].assimilate(static_cast<Small0*>(p)); else if (ty == 1) h[i].assimilate(static_cast<Small1*>(p));
+						else if (ty == 2) h[i].assimilate(static_cast<Large2*>(p)); else h[i].assimilate(static_cast<Large3*>(p));
+					}
+				}
+			}
 			else if (o == "vc") {
 				int ty = std::atoi(t[2].c_str());
 				std::string r;
